@@ -66,6 +66,11 @@ func (c *Collection) Snapshot(dst io.Writer) error {
 	// Take a snapshot of the current state
 	verifYield("snap.opened", nil, 0)
 	defer os.Remove(recorder.Name())
+	defer recorder.Close()
+	defer func() { // on an error path the recorder is still installed: detach it
+		dst := (*unsafe.Pointer)(unsafe.Pointer(&c.record))
+		atomic.CompareAndSwapPointer(dst, unsafe.Pointer(recorder), nil)
+	}()
 	if _, err := c.writeState(s2.NewWriter(dst)); err != nil {
 		return err
 	}
@@ -83,6 +88,8 @@ func (c *Collection) recorderOpen() (log *commit.Log, err error) {
 		dst := (*unsafe.Pointer)(unsafe.Pointer(&c.record))
 		ptr := unsafe.Pointer(log)
 		if !atomic.CompareAndSwapPointer(dst, nil, ptr) {
+			log.Close()
+			os.Remove(log.Name())
 			return nil, fmt.Errorf("column: unable to snapshot, another one might be in progress")
 		}
 	}
